@@ -6,6 +6,8 @@ From PowHsm Require Import Model.LedgerProtocol.
 From PowHsm Require Import Proofs.C04.
 From PowHsm Require Import Proofs.C05.
 From PowHsm Require Import Proofs.C01.
+From PowHsm Require Import Gen.Src.
+From PowHsm Require Import Proofs.SrcEquivDongle.
 Open Scope N_scope.
 
 (* for every request and every device script, sign answers only codes docs/protocol.md lists for sign plus the generic ones (closed check on the generated tables vs the generated doc lists) *)
@@ -207,5 +209,18 @@ Theorem C04_named_causes_sign :
          lookup_Z (lookup_err ERR_SIGN_RLP SIGN_AUTH_STEP3_ERRS SIGN_AUTH_STEP3_DEFAULT) TR_SIGN_V5
            TR_SIGN_V5_DEFAULT = V5_ERROR_CODE_INVALID_AUTH.
 Proof. exact (@named_causes_sign). Qed.
+
+(* TIE BY TRANSLATION: _Error.is_user_defined_error of ledger/hsm2dongle.py (the status words _send_command turns into an error result), as regenerated from the source text, is the model's user_defined over the tabulated ranges *)
+Theorem C04_source_user_defined_range_is_model :
+  forall sw : N,
+         src__Error__is_user_defined_error (VInt (Z.of_N sw)) = POk (VBool (user_defined sw)).
+Proof. exact (@src_is_user_defined_ok). Qed.
+
+(* i.e. exactly 0x69A0..0x6BFF and 0x6D00 *)
+Theorem C04_source_user_defined_range :
+  forall sw : N,
+         src__Error__is_user_defined_error (VInt (Z.of_N sw)) = POk (VBool true) <->
+         27040 <= sw <= 27647 \/ sw = 27904.
+Proof. exact (@src_is_user_defined_true_iff). Qed.
 
 Example C04_nonvacuous : True. Proof. exact I. Qed. (* concrete runs closed by vm_compute in Proofs/C04.v: blockchainState on Status 0x6B87 / silent device / bad opcode / 0x6F00 answers -905; sign on ERR_SIGN_INVALID_PATH answers -103; ex_error_result_escapes_* exhibit the reconnection-bring-up observation recorded in DESIGN.md *)
